@@ -209,6 +209,12 @@ def _stmt(st, env):
             new = cur + val
         elif isinstance(st.op, ast.Sub):
             new = cur - val
+        elif isinstance(st.op, ast.BitOr):
+            new = cur | val
+        elif isinstance(st.op, ast.BitAnd):
+            new = cur & val
+        elif isinstance(st.op, ast.Mult):
+            new = cur * val
         else:
             raise AnalysisError("unsupported augmented assignment")
         _store(st.target, new, env)
@@ -474,6 +480,11 @@ def _ev(e, env):
                 raise Raised("TypeError")
         if isinstance(e.op, ast.Mult):
             return a * b
+        if isinstance(e.op, (ast.BitOr, ast.BitAnd, ast.BitXor, ast.LShift, ast.RShift)) and isinstance(a, int) and isinstance(b, int):
+            return {ast.BitOr: a | b, ast.BitAnd: a & b, ast.BitXor: a ^ b, ast.LShift: a << b if b < 64 else 0,
+                    ast.RShift: a >> b}[type(e.op)]
+        if isinstance(e.op, (ast.BitOr, ast.BitAnd)) and isinstance(a, (set, frozenset)) and isinstance(b, (set, frozenset)):
+            return a | b if isinstance(e.op, ast.BitOr) else a & b
         if isinstance(e.op, (ast.FloorDiv, ast.Mod, ast.Div)) and isinstance(a, (int, float)) and isinstance(b, (int, float)) \
                 and not isinstance(a, bool) and not isinstance(b, bool):
             try:
@@ -530,7 +541,10 @@ def _ev(e, env):
                 and e.func.attr in env.get("__methods__", {}):
             extra = {k: env[k] for k in ("__calls__", "__values__", "__isinstance__", "__methods__", "__globals__",
                                          "__global_lookup__", "__max_iter__") if k in env}
-            return call_method(env["__methods__"][e.func.attr], env["__self__"], _args(e, env), extra)
+            mnode = env["__methods__"][e.func.attr]
+            if any(A.dotted(d_) == "staticmethod" for d_ in mnode.decorator_list):
+                return call_function(mnode, _args(e, env), extra)
+            return call_method(mnode, env["__self__"], _args(e, env), extra)
         if isinstance(e.func, ast.Attribute) and e.func.attr in ("upper", "lower", "strip", "join", "split", "startswith", "endswith"):
             base = _ev(e.func.value, env)
             if isinstance(base, (str, bytes)):
@@ -615,3 +629,10 @@ def _ev(e, env):
                 raise Raised("TypeError")        # calling None / a non-callable
         raise AnalysisError("miniinterp: unsupported call %s" % A.src(e))
     raise AnalysisError("miniinterp: unsupported expression %s" % A.src(e))
+
+
+def eval_expr(expr, extra=None):
+    """evaluate a module-level expression (a table, a constant) with the hooks of `extra`"""
+    env = {"__self__": {}}
+    env.update(extra or {})
+    return _ev(expr, env)
